@@ -8,7 +8,7 @@ system call. Records:
   data <size> <sum>                    size and short hash of the data being saved
   trace <event>*                       completed file system calls of the child on the repository:
                                        create create-failed mkdir prealloc:<n> write:<n> fsyncFile close
-                                       rename fsyncDir chmod unlinkTmp
+                                       rename fsyncDir chmod unlinkTmp open-final-for-writing write-final:<n>
   inflight <event>                     call during which the kill arrived (effect unknown); write:any
   status killed|completed|error|killed-before-save|timeout
   file <role final|tmp|other> <hex name> <size> <sum> <real ParseID ok 0/1>
@@ -112,6 +112,10 @@ def handle (c : Case) : Verdict :=
         | none => prevSame            -- an existing complete file must not disappear
       let tempListed := files.filter fun f => f.getD 1 "" != "final" && f.getD 5 "" == "1"
       if finalBad then .specfalse "C36:kill:final-name-shows-partial-file" s!"obs={repr obs} size={size} trace={tr}"
+      else if (tr.toList.drop 1).any (fun t => t == "open-final-for-writing" || (t.splitOn ":").head! == "write-final") ||
+              (match c.find "inflight" with | some r => r.getD 1 "" == "open-final-for-writing" || ((r.getD 1 "").splitOn ":").head! == "write-final" | none => false) then
+        -- the final name may only come into being by renaming a complete, fsynced temporary file
+        .specfalse "C36:powerloss:final-name-opened-for-writing" s!"type={su.getD 1 ""} trace={tr} inflight={c.find "inflight"}"
       else if !tempListed.isEmpty then
         .specfalse "C36:list:temporary-name-parses-as-id" s!"{(unhexStr ((tempListed.head!).getD 2 "-")).getD "?"}"
       else if (ofRole "tmp").length > 1 then .differ "observation" "more than one temporary file"
